@@ -62,12 +62,20 @@ Definition dec_conn (x : sx) : option conn :=
   | _ => None
   end.
 
-Definition dec_input (x : sx) : option (config * bool * list conn) :=
+(* optional fourth component: per connection, for each request, the number of server
+   items that had been sent when the request showed up at the (patient) server; -1 or
+   absent: not measured *)
+Definition dec_input (x : sx) : option (config * bool * list conn * list (list Z)) :=
   match x with
-  | SL [SL [ins; SS res; smr; mechs]; sme; conns] =>
+  | SL (SL [ins; SS res; smr; mechs] :: sme :: conns :: more) =>
       do i <- as_b ins; do r <- as_b smr; do ms <- as_list as_s mechs; do e <- as_b sme;
       do cs <- as_list dec_conn conns;
-      Some ({| c_insecure := i; c_resource := res; c_sm_resume := r; c_mechs := ms |}, e, cs)
+      do sbs <- match more with
+                | [] => Some []
+                | [y] => as_list (as_list as_z) y
+                | _ => None
+                end;
+      Some ({| c_insecure := i; c_resource := res; c_sm_resume := r; c_mechs := ms |}, e, cs, sbs)
   | _ => None
   end.
 
@@ -81,7 +89,21 @@ Definition req_sx (r : creq) : sx :=
   | RSession id => SL [SZ 5; SN id]
   | REnable b => SL [SZ 6; SB b]
   end.
-Definition out_sx (x : out) : sx := SL [req_sx (o_req x); SB (o_tls x)].
+(* Third component of every request: the observed count [sb] of server items sent
+   before the request showed up is echoed when it is at least the number of items the
+   client must have consumed by then (cumulative [o_seen], theorems C03_waits_for_confirmation
+   and C03_seen_is_read); otherwise the required number is shown, which the observation
+   cannot equal. *)
+Fixpoint outs_sx (w : list out) (sbs : list Z) (consumed_before : Z) : list sx :=
+  match w with
+  | [] => []
+  | x :: w' =>
+      let c := (consumed_before + Z.of_nat (length (o_seen x)))%Z in
+      let sb := match sbs with b :: _ => b | [] => (-1)%Z end in
+      SL [req_sx (o_req x); SB (o_tls x);
+          if (sb <? 0)%Z then SZ sb else if (c <=? sb)%Z then SZ sb else SL [SZ c]]
+      :: outs_sx w' (tl sbs) c
+  end.
 Definition result_sx (r : result) : sx :=
   match r with Ok => SL [SZ 0] | Err ce perm => SL [SZ 1; SB ce; SB perm] end.
 Definition persist_sx (p : persist) : sx :=
@@ -96,17 +118,17 @@ Fixpoint answers_from (base : N) (k : nat) (left : nat) : list sx :=
   | S l => (if Nat.eqb (Nat.modulo k 3) 0 then [SN (base + N.of_nat k + 1)] else []) ++ answers_from base (S k) l
   end.
 
-Fixpoint run_conns_sx (cfg : config) (p : persist) (cs : list conn) : list sx :=
+Fixpoint run_conns_sx (cfg : config) (p : persist) (cs : list conn) (sbs : list (list Z)) : list sx :=
   match cs with
   | [] => []
   | c :: cs' =>
       let '(w, r, p1) := connect cfg (k_dial c) (k_tls c) p (k_script c) in
       let p2 := match r with Ok => add_inbound p1 (k_traffic c) | _ => p1 end in
       let ans := match r with Ok => answers_from (p_inbound p1) 0 (N.to_nat (k_traffic c)) | _ => [] end in
-      SL [SL (map out_sx w); result_sx r; persist_sx p2; SL ans] :: run_conns_sx cfg p2 cs'
+      SL [SL (outs_sx w (hd [] sbs) 0); result_sx r; persist_sx p2; SL ans] :: run_conns_sx cfg p2 cs' (tl sbs)
   end.
 
-Definition run_typed (i : config * bool * list conn) : sx :=
-  let '(cfg, sme, cs) := i in SL (run_conns_sx cfg (fresh sme) cs).
+Definition run_typed (i : config * bool * list conn * list (list Z)) : sx :=
+  let '(cfg, sme, cs, sbs) := i in SL (run_conns_sx cfg (fresh sme) cs sbs).
 
 Definition run_session : sx -> sx := with_input dec_input run_typed.
